@@ -406,3 +406,19 @@ Definition np_stack (l : list (list Qc)) : result (list (list Qc)) :=
    the harness reads a non-finite entry as the error ERR_NAN (an empty array stays empty) *)
 Definition np_div_int (x : list Qc) (n : Z) : result (list Qc) :=
   if (n =? 0)%Z then match x with [] => Ok [] | _ => Err ERR_NAN end else Ok (map (fun y => y / qofZ n) x).
+
+(* ---- vocabulary of the translated methods of SparseDrugComboInteractionMCMCSample ---- *)
+(* zip(a, b, c): stops with the shortest *)
+Fixpoint zip3 {A B C} (a : list A) (b : list B) (c : list C) : list (A * B * C) :=
+  match a, b, c with
+  | x :: a', y :: b', z :: c' => (x, y, z) :: zip3 a' b' c'
+  | _, _, _ => []
+  end.
+(* d[c, t] on the single-effect dict: KeyError when the key is absent *)
+Definition lookup_key (L : list (Z * Z * Qc)) (c d : Z) : result Qc :=
+  match lookup L c d with Some v => Ok v | None => Err ERR_KEY end.
+(* float * float *)
+Definition qmul (x y : Qc) : Qc := x * y.
+(* np.exp(x), np.log(x) on a vec: the oracle, entrywise *)
+Definition vexp (orc : oracle) (x : list Qc) : list Qc := map (orc ORC_EXP) x.
+Definition vlog (orc : oracle) (x : list Qc) : list Qc := map (orc ORC_LN) x.
